@@ -259,3 +259,63 @@ func dumpVal(b []byte, v reflect.Value, depth int) []byte {
 		return append(b, fmt.Sprint(v.Interface())...)
 	}
 }
+
+// Scribble overwrites everything reachable from v that a caller could legitimately modify in a result it was given: every byte of
+// every slice, every number, flag and string behind a pointer (time.Time values are left alone). It simulates an application that
+// edits what the library returned; later results of the library must not change because of it.
+func Scribble(v any) {
+	scribble(reflect.ValueOf(v), map[uintptr]bool{}, 0)
+}
+
+func scribble(v reflect.Value, seen map[uintptr]bool, depth int) {
+	if depth > 40 {
+		return
+	}
+	switch v.Kind() {
+	case reflect.Ptr:
+		if v.IsNil() || seen[v.Pointer()] {
+			return
+		}
+		seen[v.Pointer()] = true
+		scribble(v.Elem(), seen, depth+1)
+	case reflect.Interface:
+		if !v.IsNil() {
+			scribble(v.Elem(), seen, depth+1)
+		}
+	case reflect.Struct:
+		if v.Type() == timeType {
+			return
+		}
+		for i := 0; i < v.NumField(); i++ {
+			f := v.Field(i)
+			if v.Type().Field(i).PkgPath != "" {
+				continue // unexported
+			}
+			scribble(f, seen, depth+1)
+		}
+	case reflect.Slice:
+		for i := 0; i < v.Len(); i++ {
+			scribble(v.Index(i), seen, depth+1)
+		}
+	case reflect.Array:
+		for i := 0; i < v.Len(); i++ {
+			scribble(v.Index(i), seen, depth+1)
+		}
+	case reflect.Uint8, reflect.Uint16, reflect.Uint32, reflect.Uint64, reflect.Uint:
+		if v.CanSet() {
+			v.SetUint(^v.Uint() & 0x7f)
+		}
+	case reflect.Int, reflect.Int8, reflect.Int16, reflect.Int32, reflect.Int64:
+		if v.CanSet() {
+			v.SetInt((v.Int() + 1) & 0x7f)
+		}
+	case reflect.Bool:
+		if v.CanSet() {
+			v.SetBool(!v.Bool())
+		}
+	case reflect.String:
+		if v.CanSet() {
+			v.SetString("scribbled")
+		}
+	}
+}
